@@ -10,6 +10,10 @@
 (*   index_unit=       the override rule of LASFile.read                     *)
 (*   dtypes=           list / dict / False                                   *)
 (*   ignore_data       header only                                           *)
+(*   section routing   which parser a section title selects and under which  *)
+(*                     key of LASFile.sections its content is stored, for    *)
+(*                     1.2 / 2.0 / 3.0 files (algorithm level: the case       *)
+(*                     analysis of LASFile.read and determine_section_type)  *)
 (***************************************************************************)
 EXTENDS Integers, Sequences, FiniteSets, TLC, Json, SequencesExt, FiniteSetsExt
 CONSTANTS Emit
@@ -56,10 +60,35 @@ IndexUnitOverride(arg) == IF arg = "none" THEN "detect" ELSE IF HasLowerM(arg) T
 DtypesOut(spec, ncols) == IF spec = <<"auto">> THEN [c \in 1..ncols |-> "f"]
                           ELSE IF spec = <<"false">> THEN [c \in 1..ncols |-> "U"] ELSE spec
 
+\* ---- section routing --------------------------------------------------------------
+\* A title is "~" + letter (upper or lower case) + a suffix; the suffix kinds and their spellings (harness/EXT table):
+\*   plain ""   word "xyz section"   under "xyz_Information"   logdef "og_Definition"   logpar "og_Parameter"
+\*   logdata "og_Data | Log_Definition"   x_data "ore_Data[1] | Core_Definition"   x_par "ore_Parameter"
+\*   x_def "ore_Definition"   x_DATA "ORE_DATA"
+RLetters == {"V", "W", "C", "P", "O", "A", "T", "L"}
+RSuffixes == {"plain", "word", "under", "logdef", "logpar", "logdata", "x_data", "x_par", "x_def", "x_DATA"}
+HasUnderscore(sf) == sf \notin {"plain", "word"}
+ExactLog(t, sf) == t.letter = "L" /\ ~t.lower /\ t.suffix = sf         \* "~Log_Definition" etc. are matched case-sensitively
+HasData(sf) == sf \in {"logdata", "x_data"}                            \* the text "_Data", case-sensitively
+Las3Indicator(sf) == sf \in {"logdef", "logpar", "logdata", "x_data", "x_par", "x_def", "x_DATA"}   \* compared in upper case
+RouteType(t) == IF t.letter = "A" \/ ExactLog(t, "logdata") THEN "Data"
+                ELSE IF t.letter = "O" THEN "Other"
+                ELSE IF HasData(t.suffix) THEN "Las3_Data"
+                ELSE "Items"
+RouteKey(t, vers) ==
+    CASE RouteType(t) \in {"Data", "Las3_Data"} -> "data"             \* (a Las3_Data section is read when there is no ~A / ~Log_Data)
+      [] RouteType(t) = "Other" -> "Other"
+      [] OTHER ->
+           IF (t.letter = "C" /\ ~HasUnderscore(t.suffix)) \/ ExactLog(t, "logdef") THEN "Curves"
+           ELSE IF (t.letter = "P" /\ ~HasUnderscore(t.suffix)) \/ ExactLog(t, "logpar") THEN "Parameter"
+           ELSE IF vers = "3.0" /\ Las3Indicator(t.suffix) THEN "own"
+           ELSE IF t.letter = "V" THEN "Version" ELSE IF t.letter = "W" THEN "Well" ELSE "own"
+Route(t, vers) == <<IF RouteType(t) = "Las3_Data" THEN "Data" ELSE RouteType(t), RouteKey(t, vers)>>
+
 \* ---- instances -----------------------------------------------------------------
 Perms(S) == {p \in [1..Cardinality(S) -> S] : \A i, j \in DOMAIN p : i # j => p[i] # p[j]}
 Values == {"999.25", "-999.25", "9999.25", "-9999.25", "999", "-999", "9999.99", "2147483647", "32767", "-0.5", "7", "-9999"}
-Stage1 == {"stack", "null", "unit", "dtypes"}
+Stage1 == {"stack", "null", "unit", "dtypes", "route"}
 Fine(k) ==
     CASE k = "stack" ->
            {[kind |-> "stack", keys |-> p, arg |-> a, sort |-> s,
@@ -76,6 +105,9 @@ Fine(k) ==
       [] k = "dtypes" ->
            {[kind |-> "dtypes", spec |-> sp, expect |-> DtypesOut(sp, 3)] :
                sp \in {<<"auto">>, <<"false">>} \cup [1..3 -> {"f", "i", "U"}]}
+      [] k = "route" ->
+           {[kind |-> "route", title |-> t, vers |-> v, expect |-> Route(t, v)] :
+               t \in [letter : RLetters, lower : BOOLEAN, suffix : RSuffixes], v \in {"1.2", "2.0", "3.0"}}
 Init == stage = 0 /\ inst = [kind |-> "seed"]
 Next == \/ stage = 0 /\ stage' = 1 /\ \E k \in Stage1 : inst' = [kind |-> k]
         \/ stage = 1 /\ stage' = 2 /\ \E x \in Fine(inst.kind) : inst' = x
